@@ -392,6 +392,10 @@ func emit(c *vh.Ctx, sc scan) {
 		}
 	}
 	// 3. interop
+	kindOf := map[uint16]string{}
+	for _, r := range sc.Table {
+		kindOf[r.ID] = fmt.Sprintf("%d-%d", r.Kind, r.MacSize)
+	}
 	for _, io := range sc.Interops {
 		key := fmt.Sprintf("%s/%04x/%04x", wk, io.Suite, io.Version)
 		in := map[string]any{"weak": sc.Weak, "suite": fmt.Sprintf("0x%04x", io.Suite), "version": fmt.Sprintf("0x%04x", io.Version)}
@@ -413,7 +417,14 @@ func emit(c *vh.Ctx, sc scan) {
 		c.Case("forge", fmt.Sprintf("(CForge %s %d %d %s %s %s %s)", w, io.Version, io.Suite,
 			halfTerm(io.CIn), halfTerm(io.COut), halfTerm(io.SIn), halfTerm(io.SOut)),
 			"forge/"+key, true, map[string]any{"suite": in["suite"], "version": in["version"], "client_out": io.COut.TName, "client_in": io.CIn.TName})
-		// framing correspondence: record types/lengths/explicit nonces for the write sequence, both directions
+		// framing correspondence: record types/lengths/explicit nonces for the write sequence, both directions.
+		// quick tier: the first suite of each (cipher kind, MAC size) per version (the framing depends on
+		// these only); thorough: every suite, version and table.
+		wk2 := fmt.Sprintf("%s/%04x", kindOf[io.Suite], io.Version)
+		if c.Tier == "quick" && seenKind[wk2] {
+			continue
+		}
+		seenKind[wk2] = true
 		if io.C2S.Equal {
 			c.Case("wire", fmt.Sprintf("(CWire %s %d %d true %s %s)", w, io.Version, io.Suite, sizesTerm(io.C2S.Sizes), recsTerm(io.C2S.Recs)),
 				"wire/"+key+"/c2s", len(io.C2S.Recs) > 3, nil)
@@ -425,9 +436,20 @@ func emit(c *vh.Ctx, sc scan) {
 	}
 }
 
+var seenKind = map[string]bool{}
+
 func run(c *vh.Ctx) {
+	type res struct {
+		sc  scan
+		err error
+	}
+	chs := map[bool]chan res{false: make(chan res, 1), true: make(chan res, 1)}
 	for _, weak := range []bool{false, true} {
-		sc, err := runChild(weak, c.Seed, c.Tier)
+		go func(weak bool) { sc, err := runChild(weak, c.Seed, c.Tier); chs[weak] <- res{sc, err} }(weak)
+	}
+	for _, weak := range []bool{false, true} {
+		r := <-chs[weak]
+		sc, err := r.sc, r.err
 		if err != nil {
 			c.Fail("runner/child", err.Error(), nil, nil, nil)
 			continue
